@@ -980,13 +980,13 @@ class PLTSeededLoop(LoopInv):
                         ne == POISSON_DRAW(self.state_i, E)
 
 
-def plt_seeded(use_observed):
+def plt_seeded(use_observed, rank=1):
     loop = PLTSeededLoop()
     loop.use_observed = use_observed
 
     class Seeded(_PLT):
-        case = 'seeded (numpy.random), %s' % ('observed number of events (CL form)' if use_observed else
-                                              'Poisson number of events (L-test form)')
+        case = 'seeded (numpy.random), %s%s' % ('observed number of events (CL form)' if use_observed else
+                                                'Poisson number of events (L-test form)', '' if rank == 1 else ', 2-d rates')
         loops = {0: loop}
         normalize = False
 
@@ -994,8 +994,15 @@ def plt_seeded(use_observed):
         def params(cls, c):
             K, S = c.int('K'), c.int('num_simulations')
             c.ctx.assume(z3.And(K >= 1, S >= 1))
-            F = c.arr('forecast', 'float64', n=K)
-            O = c.arr('observed', 'float64', n=K)
+            if rank == 1:
+                F = c.arr('forecast', 'float64', n=K)
+                O = c.arr('observed', 'float64', n=K)
+            else:
+                n0, n1 = c.int('n_cells'), c.int('n_mags')
+                c.ctx.assume(z3.And(n0 >= 1, n1 >= 1))
+                F = c.arr2_flat('forecast', 'float64', (n0, n1))
+                O = c.arr2_flat('observed', 'float64', (n0, n1))
+                c.ctx.assume(K == F.flat_backing.n)
             return dict(forecast_data=F, observed_data=O, num_simulations=S, random_numbers=None, seed=c.int('seed'),
                         use_observed_counts=use_observed, verbose=False, normalize_likelihood=False, _n=c.int('n_events'))
 
@@ -1003,18 +1010,34 @@ def plt_seeded(use_observed):
         def requires(cls, c, forecast_data, observed_data, num_simulations, random_numbers, seed, use_observed_counts, verbose,
                      normalize_likelihood, _n):
             F, O = forecast_data, observed_data
-            K = F.n
+            K = _size(F)
+            Ff, Of = (F, O) if F.ndim == 1 else (F.flat_backing, O.flat_backing)
             i = z3.Int('i!rq')
-            return [z3.ForAll([i], z3.Implies(z3.And(0 <= i, i < K), z3.And(F.f((i,)) >= 0, O.f((i,)) >= 0)), patterns=[F.f((i,))]),
-                    z3.ForAll([i], z3.Implies(z3.And(0 <= i, i < K), O.f((i,)) >= 0), patterns=[O.f((i,))]),
-                    rsum(lambda k: F.f((k,)), K) > 0, rsum(lambda k: O.f((k,)), K) == z3.ToReal(_n), _n >= 0]
-    Seeded.accepts = lambda *a, **k: False
-    Seeded.__name__ = 'PLT_seeded_%s' % use_observed
+            return [z3.ForAll([i], z3.Implies(z3.And(0 <= i, i < K), z3.And(Ff.f((i,)) >= 0, Of.f((i,)) >= 0)), patterns=[Ff.f((i,))]),
+                    z3.ForAll([i], z3.Implies(z3.And(0 <= i, i < K), Of.f((i,)) >= 0), patterns=[Of.f((i,))]),
+                    rsum(lambda k: _flat(F, k), K) > 0, rsum(lambda k: _flat(O, k), K) == z3.ToReal(_n), _n >= 0]
+
+    def accepts(c, forecast_data, observed_data, num_simulations=1000, random_numbers=None, seed=None,
+                use_observed_counts=True, verbose=True, normalize_likelihood=False):
+        return (isinstance(forecast_data, Arr) and forecast_data.ndim == rank and random_numbers is None and seed is not None
+                and use_observed_counts is use_observed and normalize_likelihood is False
+                and (rank == 1 or getattr(forecast_data, 'flat_backing', None) is not None))
+
+    def result(c, forecast_data, observed_data, num_simulations=1000, random_numbers=None, seed=None,
+               use_observed_counts=True, verbose=True, normalize_likelihood=False):
+        S = to_z3(num_simulations)
+        LLF = c.ctx.fresh_fun('plt_sims', z3.IntSort(), z3.RealSort())
+        c.ctx.ghost['rng'] = c.ctx.fresh('rng_after_test', RNG)
+        return (c.ctx.fresh_real('plt_qs'), c.ctx.fresh_real('plt_obs_ll'), SymList(S, lambda s: LLF(to_z3(s)), 'simulated_ll'))
+    Seeded.accepts = staticmethod(accepts)
+    Seeded.result = staticmethod(result)
+    Seeded.__name__ = 'PLT_seeded_%s_%d' % (use_observed, rank)
     return Seeded
 
 
-_REG.add(plt_seeded(True))
-_REG.add(plt_seeded(False))
+_SEEDED = [plt_seeded(True), plt_seeded(False), plt_seeded(False, 2)]
+for _cls in _SEEDED:
+    _REG.add(_cls)
 
 
 # ------------------------------------------------------------------ C08: public paired tests (plumbing over the array-level kernels)
@@ -1310,3 +1333,80 @@ def w_case(scale):
 for _s in (False, True):
     _REG.add(paired_t_case(_s))
     _REG.add(w_case(_s))
+
+
+# ------------------------------------------------------------------ seeded kernels usable modularly; public L-test
+def _seeded_call_wrap(cls):
+    oreq, oens = cls.requires.__func__, cls.ensures.__func__
+
+    def requires(kls, c, forecast_data, observed_data, num_simulations=1000, random_numbers=None, seed=None,
+                 use_observed_counts=True, verbose=True, normalize_likelihood=False, _n=None):
+        if _n is None:
+            _n = c.ctx.fresh_int('n_events_at_call')
+            c.ctx.assume(z3.ToReal(_n) == rsum(lambda k: _flat(observed_data, k), _size(forecast_data)))
+        return oreq(kls, c, forecast_data, observed_data, num_simulations, random_numbers, seed, use_observed_counts, verbose,
+                    normalize_likelihood, _n) + [to_z3(num_simulations) >= 1]
+
+    def ensures(kls, c, r, forecast_data, observed_data, num_simulations=1000, random_numbers=None, seed=None,
+                use_observed_counts=True, verbose=True, normalize_likelihood=False, _n=None):
+        if _n is None:
+            _n = c.ctx.fresh_int('n_events_at_call')
+            c.ctx.assume(z3.ToReal(_n) == rsum(lambda k: _flat(observed_data, k), _size(forecast_data)))
+        for item in oens(kls, c, r, forecast_data, observed_data, num_simulations, random_numbers, seed, use_observed_counts,
+                         verbose, normalize_likelihood, _n):
+            if c.mode == 'assume' and item[0].startswith('hint:'):
+                continue
+            yield item
+    cls.requires, cls.ensures = classmethod(requires), classmethod(ensures)
+
+
+for _cls in _SEEDED:
+    _seeded_call_wrap(_cls)
+
+
+@contract
+class PublicLTest:
+    qualname = 'csep.core.poisson_evaluations.likelihood_test'
+    case = 'abstract forecast / catalog, seeded'
+    properties = ('C05', 'C06')
+
+    def params(c):
+        from pyvc.core import Lam
+        fc, data, sc, mc, mags, n0, n1 = _abstract_forecast(c, 2)
+        S = c.int('num_simulations')
+        c.ctx.assume(S >= 1)
+        obs2 = c.arr2_flat('obs_counts', 'float64', (n0, n1))
+        cat = c.obj(None, spatial_magnitude_counts=Lam(lambda *a, **k: obs2), name='cat', region=c.obj(None, magnitudes=mags))
+        return dict(gridded_forecast=fc, observed_catalog=cat, num_simulations=S, seed=c.int('seed'), random_numbers=None, verbose=False,
+                    _v=dict(data=data, obs2=obs2))
+
+    def requires(c, gridded_forecast, observed_catalog, num_simulations, seed, random_numbers, verbose, _v):
+        F, O = _v['data'], _v['obs2']
+        K = _size(F)
+        i = z3.Int('i!rq')
+        Ff, Of = F.flat_backing, O.flat_backing
+        n = c.ctx.fresh_int('n_events')
+        return [z3.ForAll([i], z3.Implies(z3.And(0 <= i, i < K), z3.And(Ff.f((i,)) >= 0, Of.f((i,)) >= 0)), patterns=[Ff.f((i,))]),
+                z3.ForAll([i], z3.Implies(z3.And(0 <= i, i < K), Of.f((i,)) >= 0), patterns=[Of.f((i,))]),
+                rsum(lambda k: _flat(F, k), K) > 0, n >= 0, rsum(lambda k: _flat(O, k), K) == z3.ToReal(n)]
+
+    def ensures(c, r, gridded_forecast, observed_catalog, num_simulations, seed, random_numbers, verbose, _v):
+        from pyvc.core import Obj
+        F, O = _v['data'], _v['obs2']
+        K = _size(F)
+        tot = rsum(lambda k: _flat(F, k), K)
+        logb = Arr((K,), lambda ix: LOG(to_real(_flat(F, ix[0]))), 'float64')
+        yield 'returns an evaluation result', z3.BoolVal(isinstance(r, Obj))
+        calls = c.calls(PLT)
+        yield 'the statistic comes from the Poisson consistency test kernel (one call)', z3.BoolVal(len(calls) == 1)
+        yield 'observed statistic == sum over bins of log Poisson pmf(count | rate) for the full space-magnitude rates', \
+            to_real(r.fields.get('observed_statistic')) == jll_spec(lambda k: to_real(_flat(O, k)), logb, tot, K)
+        if calls:
+            qs, obs_ll, sims = calls[0][2]
+            loc = calls[0][1]
+            yield 'quantile and test distribution are those of the kernel', z3.BoolVal(
+                r.fields.get('quantile') is qs and r.fields.get('test_distribution') is sims)
+            yield 'the number of events of every simulation is a Poisson draw (not the observed count)', z3.BoolVal(
+                loc.get('use_observed_counts') is False)
+            yield 'seed passed through', z3.BoolVal(loc.get('seed') is seed)
+        yield 'name / status', z3.BoolVal(r.fields.get('name') == 'Poisson L-Test' and r.fields.get('status') == 'normal')
